@@ -108,9 +108,17 @@ func VerifC04History() {
 	pr := proposalctl.NewReconcilerForVerif(&c04Topo{}, &c04Conns{}, &c03PropStore{}, store, &c03Registry{})
 	for s := 1; s <= h+1; s++ {
 		var op int
+		combined := false
 		val := "rr"
 		if s <= h {
-			op = verifrt.Fork("op"+"0123456789"[s:s+1], cfgstore.VNP+cfgstore.VLeaves)
+			nops := cfgstore.VNP + cfgstore.VLeaves
+			if s == h {
+				nops++ // the last applied Set may also be the request {delete /a, update /a/b/c}
+			}
+			op = verifrt.Fork("op"+"0123456789"[s:s+1], nops)
+			if op == cfgstore.VNP+cfgstore.VLeaves {
+				combined, op = true, cfgstore.VNP+0
+			}
 			val = verifrt.NondetStringN("val", 2, "v12")
 		} else {
 			// optionally one more Set (update of leaf 4 to a value nothing else writes) that the device REFUSES: it is
@@ -130,6 +138,14 @@ func VerifC04History() {
 			req.Delete = []*gnmi.Path{{Elem: c03Elems(node)}}
 		} else {
 			req.Update = []*gnmi.Update{{Path: &gnmi.Path{Elem: c03Elems(node)}, Val: &gnmi.TypedValue{Value: &gnmi.TypedValue_StringVal{StringVal: val}}}}
+		}
+		if combined {
+			req.Delete = []*gnmi.Path{{Elem: c03Elems(6)}}
+			for j := 0; j < cfgstore.VLeaves; j++ {
+				if cfgstore.VCovers(6, j) {
+					refLive[j] = false
+				}
+			}
 		}
 		vTx = nil
 		_, err := srv.Set(ctx, req)
